@@ -1127,6 +1127,24 @@ func (c *Context) Pow(d, x, y *Decimal) (Condition, error) {
 		return 0, nil
 	}
 
+	if y.Form == Infinite {
+		// x is finite and non-zero. A negative x needs an integral exponent;
+		// otherwise the result depends on |x| compared with 1.
+		if xs < 0 {
+			d.Set(decimalNaN)
+			return c.goError(InvalidOperation)
+		}
+		switch cmp := tmp.Abs(x).Cmp(decimalOne); {
+		case cmp == 0:
+			d.Set(decimalOne)
+		case (cmp > 0) != y.Negative:
+			d.Set(decimalInfinity)
+		default:
+			d.Set(decimalZero)
+		}
+		return 0, nil
+	}
+
 	if xs < 0 && !yIsInt {
 		d.Set(decimalNaN)
 		return c.goError(InvalidOperation)
